@@ -147,6 +147,8 @@ Record InvA (st : state) (ss : sstate) (A : nat -> mid -> option nat) : Prop := 
      f_inherit fl = tl (prec (ss_decls ss) (f_name fl)) ++ [vanilla] /\ f_prec fl = f_name fl :: f_inherit fl /\
      (forall v, lookup Nat.eqb v (f_vars fl) = s_var (ss_decls ss) (f_name fl) v) /\
      (forall k, lookup Nat.eqb k (f_keys fl) = s_key (ss_decls ss) (f_name fl) k);
+  i_io : forall fl, In fl (st_flavors st) -> f_name fl <> vanilla ->
+     (forall v, In v (f_initable fl) <-> In v (s_initable (ss_decls ss) (f_name fl))) /\ f_required fl = s_required (ss_decls ss) (f_name fl);
   i_keys : forall fl, In fl (st_flavors st) -> NoDup (map fst (f_meths fl)) /\ noempty (f_meths fl);
   i_tbl : forall fl m, In fl (st_flavors st) -> tbl_of fl m = filter_map (fun g => A g m) (f_name fl :: f_inherit fl);
   i_slot : forall g m, match s_slot ss g m with
@@ -321,6 +323,7 @@ Proof.
     + apply (i_dom _ _ _ I).
     + apply (i_van _ _ _ I).
     + apply (i_user _ _ _ I).
+    + apply (i_io _ _ _ I).
     + apply (i_keys _ _ _ I).
     + apply (i_tbl _ _ _ I).
     + intros g' m'. fold (s_set_slot ss g m d b). rewrite s_slot_set, Hsa.
@@ -393,6 +396,13 @@ Proof.
           intros m'. rewrite (i_tbl _ _ _ I x m' Hx). apply filter_map_ext. intros y Hy. unfold A1.
           destruct (y =? g) eqn:Ey; [| reflexivity]. apply Nat.eqb_eq in Ey. subst y. destruct Hy as [Hy | Hy]; [| contradiction].
           rewrite Hy, Nat.eqb_refl in Exg. discriminate. }
+    assert (PGio : forall x, In x (st_flavors st) -> f_initable (G x) = f_initable x /\ f_required (G x) = f_required x).
+    { intros x Hx. unfold G. cbv beta. set (y := if f_name x =? f_name fl1 then fl1 else x).
+      assert (Hy : f_initable y = f_initable x /\ f_required y = f_required x).
+      { unfold y. destruct (f_name x =? f_name fl1) eqn:Exf; [| split; reflexivity]. apply Nat.eqb_eq in Exf.
+        assert (x = fl) by (apply (same_name_same _ x fl (i_names _ _ _ I) Hx Hin); exact Exf). subst x. split; reflexivity. }
+      destruct (existsb (Nat.eqb g) (f_inherit y)); [| exact Hy]. unfold insert_method.
+      destruct (lookup mid_eqb m (f_meths y)); simpl; exact Hy. }
     assert (Hnames : map f_name (map G (st_flavors st)) = map f_name (st_flavors st)).
     { rewrite map_map. apply map_ext_in. intros x Hx. apply (PG x Hx). }
     constructor; cbn [st_flavors st_heap s_set_slot ss_decls].
@@ -403,6 +413,8 @@ Proof.
       destruct (PG x Hx) as (P1 & P2 & P3 & P4 & _). rewrite P2, P3, P4. apply (i_van _ _ _ I x Hx). congruence.
     + intros x' Hx' E. apply in_map_iff in Hx'. destruct Hx' as [x [Ex Hx]]. subst x'.
       destruct (PG x Hx) as (P1 & P2 & P3 & P4 & P5 & _). rewrite P1, P2, P3, P4, P5. apply (i_user _ _ _ I x Hx). congruence.
+    + intros x' Hx' E. apply in_map_iff in Hx'. destruct Hx' as [x [Ex Hx]]. subst x'.
+      destruct (PG x Hx) as (P1 & _). destruct (PGio x Hx) as [Q1 Q2]. rewrite P1, Q1, Q2. apply (i_io _ _ _ I x Hx). congruence.
     + intros x' Hx'. apply in_map_iff in Hx'. destruct Hx' as [x [Ex Hx]]. subst x'.
       destruct (PG x Hx) as (_ & _ & _ & _ & _ & P6 & P7 & _). split; assumption.
     + intros x' m' Hx'. apply in_map_iff in Hx'. destruct Hx' as [x [Ex Hx]]. subst x'.
@@ -496,7 +508,7 @@ Definition absorb (st : state) (obj : flavor) (g : nat) : flavor :=
                  f_vars := merge_absent Nat.eqb (f_vars obj) (f_vars c);
                  f_keys := merge_absent Nat.eqb (f_keys obj) (f_keys c);
                  f_meths := merge_meths fixed (st_heap st) (f_meths obj) g (f_meths c);
-                 f_prec := f_prec obj |}
+                 f_prec := f_prec obj; f_initable := f_initable obj; f_required := f_required obj |}
   | None => obj
   end.
 
@@ -520,6 +532,12 @@ Section Visit.
     rewrite H1, H2. unfold absorb. destruct (find_flavor st g); split; reflexivity.
   Qed.
 
+  Lemma absorb_fold_io : forall N obj, f_initable (fold_left (absorb st) N obj) = f_initable obj /\ f_required (fold_left (absorb st) N obj) = f_required obj.
+  Proof.
+    induction N as [| g N IH]; intros obj; simpl; [split; reflexivity |]. destruct (IH (absorb st obj g)) as [H1 H2].
+    rewrite H1, H2. unfold absorb. destruct (find_flavor st g); split; reflexivity.
+  Qed.
+
   Definition visit_step (k : nat) (o : option flavor) (f2 : nat) : option flavor :=
     match o with None => None | Some o' => if f2 =? vanilla then Some o' else inherit_flavor fixed k st o' f2 end.
 
@@ -535,7 +553,8 @@ Section Visit.
     - apply mem_false in Em. destruct (HI cf Hd) as (c & Hfind & Hinh). rewrite Hfind.
       assert (Hobj1 : absorb st obj cf = {| f_name := f_name obj; f_inherit := f_inherit obj ++ [cf];
                  f_vars := merge_absent Nat.eqb (f_vars obj) (f_vars c); f_keys := merge_absent Nat.eqb (f_keys obj) (f_keys c);
-                 f_meths := merge_meths fixed (st_heap st) (f_meths obj) cf (f_meths c); f_prec := f_prec obj |}).
+                 f_meths := merge_meths fixed (st_heap st) (f_meths obj) cf (f_meths c); f_prec := f_prec obj;
+                 f_initable := f_initable obj; f_required := f_required obj |}).
       { unfold absorb. rewrite Hfind. reflexivity. }
       rewrite <- Hobj1. fold (visit_step k). rewrite Hinh, fold_left_app. cbn [fold_left].
       (* the walk over the flattened inherit list of cf *)
@@ -680,6 +699,7 @@ Section Accessors.
     ai_old : forall a, a < length h0 -> deref (fst hf) a = deref h0 a;
     ai_name : f_name (snd hf) = name;
     ai_same : f_inherit (snd hf) = f_inherit nf0 /\ f_vars (snd hf) = f_vars nf0 /\ f_keys (snd hf) = f_keys nf0 /\ f_prec (snd hf) = f_prec nf0;
+    ai_io : f_initable (snd hf) = f_initable nf0 /\ f_required (snd hf) = f_required nf0;
     ai_keys : NoDup (map fst (f_meths nf0)) -> noempty (f_meths nf0) -> NoDup (map fst (f_meths (snd hf))) /\ noempty (f_meths (snd hf));
     ai_acc : forall x, In x S -> exists a, tbl_of (snd hf) (mk x) = a :: tbl_of nf0 (mk x) /\ length h0 <= a < length (fst hf) /\
                                           deref (fst hf) a = acc_combo name (bd x);
@@ -688,7 +708,7 @@ Section Accessors.
   Lemma acc_step : forall S hf x, AccInv S hf ->
     AccInv (x :: S) (let '(h', fl', _, _) := def_own (fst hf) (snd hf) (mk x) DPrimary (bd x) in (h', fl')).
   Proof.
-    intros S [h nf] x I. destruct I as [I1 I2 I3 I4 I5 I6 I7]. simpl fst in *. simpl snd in *. rewrite def_own_cases, I3.
+    intros S [h nf] x I. destruct I as [I1 I2 I3 I4 Iio I5 I6 I7]. simpl fst in *. simpl snd in *. rewrite def_own_cases, I3.
     destruct (in_dec Nat.eq_dec x S) as [Hin | Hnin].
     - (* declared twice: the same primary is stored again *)
       destruct (I6 x Hin) as (a & Ht & Ha & Hc). rewrite Ht.
@@ -702,6 +722,7 @@ Section Accessors.
       + intros b Hb. rewrite Hd. apply (I2 b Hb).
       + exact I3.
       + exact I4.
+      + exact Iio.
       + exact I5.
       + intros y Hy. assert (Hy' : In y S) by (destruct Hy; [subst; exact Hin | assumption]).
         destruct (I6 y Hy') as (b & H1 & H2 & H3). exists b. rewrite upd_length, Hd. auto.
@@ -719,6 +740,7 @@ Section Accessors.
       + intros b Hb. rewrite deref_app_old by lia. apply (I2 b Hb).
       + exact I3.
       + exact I4.
+      + exact Iio.
       + intros K E. destruct (I5 K E) as [K1 E1]. split.
         * apply (aset_nodup mid_eqb mid_eqb_spec). exact K1.
         * apply noempty_aset; [exact E1 | discriminate].
@@ -749,7 +771,7 @@ Section Accessors.
   Lemma acc_final : forall vs, AccInv vs (def_accessors mk bd vs (h0, nf0)).
   Proof.
     intros vs. assert (I := acc_all vs [] (h0, nf0) acc_init). rewrite app_nil_r in I.
-    destruct I as [I1 I2 I3 I4 I5 I6 I7]. constructor; try assumption.
+    destruct I as [I1 I2 I3 I4 Iio I5 I6 I7]. constructor; try assumption.
     - intros x Hx. apply I6. apply in_rev in Hx. exact Hx.
     - intros m Hm. apply I7. intros [y [Hy Ey]]. apply Hm. exists y. split; [apply in_rev; exact Hy | exact Ey].
   Qed.
@@ -841,12 +863,12 @@ Qed.
 Section StepFlavor.
   Variables (st : state) (ss : sstate) (A : nat -> mid -> option nat).
   Hypothesis I : InvA st ss A.
-  Variables (f : nat) (vars : list (nat * val)) (comps : list nat) (keys : list (nat * val)) (gets sets : accs).
+  Variables (f : nat) (vars : list (nat * val)) (comps : list nat) (keys : list (nat * val)) (gets sets : accs) (io : iopts).
   Local Notation ds := (ss_decls ss).
   Hypothesis Hf : f <> vanilla.
   Hypothesis Hnd : defined ds f = false.
   Hypothesis Hcs : forall c, In c comps -> c <> vanilla /\ defined ds c = true.
-  Let d := {| d_vars := set_all Nat.eqb [] vars; d_comps := comps; d_keys := set_all Nat.eqb [] keys |}.
+  Let d := {| d_vars := set_all Nat.eqb [] vars; d_comps := comps; d_keys := set_all Nat.eqb [] keys; d_io := io |}.
   Let ds' := (f, d) :: ds.
   Let L := nub (flat_map (prec ds) comps).
   Let W := i_wfd _ _ _ I.
@@ -885,7 +907,8 @@ Section StepFlavor.
     rewrite !map_length in H2. lia.
   Qed.
 
-  Let nf0 := {| f_name := f; f_inherit := []; f_vars := set_all Nat.eqb [] vars; f_keys := []; f_meths := []; f_prec := [] |}.
+  Let nf0 := {| f_name := f; f_inherit := []; f_vars := set_all Nat.eqb [] vars; f_keys := []; f_meths := []; f_prec := [];
+                f_initable := []; f_required := [] |}.
   Let nf1 := fold_left (absorb st) L nf0.
   Lemma sf_comps : fold_left (comp_step st) comps (inr nf0) = inr nf1.
   Proof.
@@ -966,7 +989,7 @@ Section StepFlavor.
 
   (* ---- options: keywords, accessors ---- *)
   Let nf2 := {| f_name := f; f_inherit := f_inherit nf1; f_vars := f_vars nf1; f_keys := set_all Nat.eqb (f_keys nf1) keys;
-                f_meths := f_meths nf1; f_prec := [] |}.
+                f_meths := f_meths nf1; f_prec := []; f_initable := acc_vars (io_inits io) nf1; f_required := io_reqs io |}.
   Let Gs := acc_vars gets nf2.
   Let Ss := acc_vars sets nf2.
   Let hf3 := def_accessors MGet BGetter Gs (st_heap st, nf2).
@@ -1004,6 +1027,11 @@ Section StepFlavor.
     destruct (ai_same _ _ _ _ _ _ _ sf_acc4) as (A1 & A2 & A3 & A4). destruct (ai_same _ _ _ _ _ _ _ sf_acc3) as (B1 & B2 & B3 & B4).
     unfold nf4. rewrite A1, A2, A3, A4, B1, B2, B3, B4. split; [apply (ai_name _ _ _ _ _ _ _ sf_acc4) |].
     split; [apply sf_nf1_basic | repeat split].
+  Qed.
+  Lemma sf_nf4_io : f_initable nf4 = acc_vars (io_inits io) nf1 /\ f_required nf4 = io_reqs io.
+  Proof.
+    destruct (ai_io _ _ _ _ _ _ _ sf_acc4) as (A1 & A2). destruct (ai_io _ _ _ _ _ _ _ sf_acc3) as (B1 & B2).
+    unfold nf4. rewrite A1, A2, B1, B2. split; reflexivity.
   Qed.
   Lemma sf_nf4_keys : NoDup (map fst (f_meths nf4)) /\ noempty (f_meths nf4).
   Proof.
@@ -1109,18 +1137,18 @@ Section StepFlavor.
   Let nf6 := {| f_name := f; f_inherit := L ++ [vanilla]; f_vars := f_vars nf1; f_keys := set_all Nat.eqb (f_keys nf1) keys;
                 f_meths := merge_meths fixed h4 (f_meths nf4) vanilla
                              (match find_flavor st vanilla with Some vfl => f_meths vfl | None => [] end);
-                f_prec := f :: L ++ [vanilla] |}.
+                f_prec := f :: L ++ [vanilla]; f_initable := acc_vars (io_inits io) nf1; f_required := io_reqs io |}.
   Lemma sf_inherit_vanilla :
     inherit_flavor fixed (inherit_fuel st) st4 nf4 vanilla =
     Some {| f_name := f; f_inherit := L ++ [vanilla]; f_vars := f_vars nf1; f_keys := set_all Nat.eqb (f_keys nf1) keys;
-            f_meths := f_meths nf6; f_prec := [] |}.
+            f_meths := f_meths nf6; f_prec := []; f_initable := acc_vars (io_inits io) nf1; f_required := io_reqs io |}.
   Proof.
     destruct sf_vanilla_rec as (vfl & V1 & V2 & V3 & V4 & V5 & V6). destruct sf_nf4_basic as (B1 & B2 & B3 & B4 & B5).
     unfold inherit_fuel. cbn [inherit_flavor]. rewrite B2, mem_existsb.
     assert (Hm : mem vanilla L = false).
     { apply mem_false. intros Hin. destruct (sf_L_defined vanilla Hin) as (_ & _ & Hv). apply Hv. reflexivity. }
     rewrite Hm. change (find_flavor st4 vanilla) with (find_flavor st vanilla). rewrite V1, V4, V5, V6. cbn [fold_left].
-    unfold nf6. rewrite V1, B1, B3, B4, B5. reflexivity.
+    destruct sf_nf4_io as [B6 B7]. unfold nf6. rewrite V1, B1, B3, B4, B5, B6, B7. reflexivity.
   Qed.
   Lemma sf_tbl6 : forall m, tbl_of nf6 m = filter_map (fun g => A2 g m) (f :: L ++ [vanilla]).
   Proof.
@@ -1145,7 +1173,7 @@ Section StepFlavor.
   Let ss1 := {| ss_decls := ds'; ss_slots := ss_slots ss |}.
   Let ss2 := fold_left (fun s x => s_set_slot s f (MGet x) DPrimary (BGetter x)) (s_acc gets ds' f) ss1.
   Let ss3 := fold_left (fun s x => s_set_slot s f (MSet x) DPrimary (BSetter x)) (s_acc sets ds' f) ss2.
-  Lemma sf_sstep : sstep ss (DFlavor f vars comps keys gets sets) = ss3.
+  Lemma sf_sstep : sstep ss (DFlavor f vars comps keys gets sets io) = ss3.
   Proof. reflexivity. Qed.
   Lemma sf_no_slot : forall m, s_slot ss f m = None.
   Proof.
@@ -1184,7 +1212,7 @@ Section StepFlavor.
   (* ---- the new state ---- *)
   Lemma sf_f_fresh : ~ In f (map f_name (st_flavors st)).
   Proof. intros Hin. apply (i_dom _ _ _ I) in Hin. destruct Hin as [H | H]; [contradiction | congruence]. Qed.
-  Lemma sf_run : def_flavor fixed st f vars comps keys gets sets = ({| st_flavors := st_flavors st ++ [nf6]; st_heap := h4 |}, Ok).
+  Lemma sf_run : def_flavor fixed st f vars comps keys gets sets io = ({| st_flavors := st_flavors st ++ [nf6]; st_heap := h4 |}, Ok).
   Proof.
     unfold def_flavor.
     assert (He : existsb (fun fl => f_name fl =? f) (st_flavors st) = false).
@@ -1214,6 +1242,20 @@ Section StepFlavor.
     intros g k H. unfold s_key. rewrite (sf_prec_old g H). apply firstsome_ext. intros y Hy. apply sf_own_key_old.
     intros E. subst y. apply (prec_defined ds W g) in Hy. congruence.
   Qed.
+  Lemma sf_sacc_old : forall a g, defined ds g = true -> s_acc a ds' g = s_acc a ds g.
+  Proof.
+    intros [| | l] g H; simpl; try reflexivity. unfold s_allvars. rewrite (sf_prec_old g H). f_equal. apply flat_map_ext_in.
+    intros y Hy. unfold ds'. rewrite decl_of_cons. destruct (y =? f) eqn:E; [| reflexivity]. apply Nat.eqb_eq in E. subst y.
+    apply (prec_defined ds W g) in Hy. congruence.
+  Qed.
+  Lemma sf_sinit_old : forall g, defined ds g = true -> s_initable ds' g = s_initable ds g /\ s_required ds' g = s_required ds g.
+  Proof.
+    intros g H. unfold s_initable, s_required. assert (E : decl_of ds' g = decl_of ds g).
+    { unfold ds'. rewrite decl_of_cons. destruct (g =? f) eqn:E; [| reflexivity]. apply Nat.eqb_eq in E. subst g. congruence. }
+    rewrite E. destruct (decl_of ds g); [| split; reflexivity]. rewrite (sf_sacc_old _ g H). split; reflexivity.
+  Qed.
+  Lemma sf_sinit_new : s_initable ds' f = s_acc (io_inits io) ds' f /\ s_required ds' f = io_reqs io.
+  Proof. unfold s_initable, s_required, ds'. rewrite decl_of_cons, Nat.eqb_refl. split; reflexivity. Qed.
   Lemma acc_combo_inj : forall b b', acc_combo f b = acc_combo f b' -> b = b'.
   Proof. intros b b' H. unfold acc_combo in H. simpl in H. inversion H. reflexivity. Qed.
 
@@ -1234,6 +1276,11 @@ Section StepFlavor.
         * intros v. rewrite (sf_svar_old _ v Hd). apply U3.
         * intros k. rewrite (sf_skey_old _ k Hd). apply U4.
       + subst fl. simpl. rewrite sf_prec_new. simpl. split; [reflexivity |]. split; [reflexivity |]. split; [apply sf_vars | apply sf_keys].
+    - intros fl Hfl E. apply in_app_iff in Hfl. destruct Hfl as [Hfl | [Hfl | []]].
+      + destruct (i_io _ _ _ I fl Hfl E) as (Q1 & Q2). assert (Hd := user_defined st ss A I fl Hfl E).
+        destruct (sf_sinit_old _ Hd) as [O1 O2]. rewrite O1, O2. split; assumption.
+      + subst fl. destruct sf_sinit_new as [N1 N2]. cbn [f_name f_initable f_required nf6]. rewrite N1, N2. split; [| reflexivity].
+        intros v. apply (sf_acc_same (io_inits io) v).
     - intros fl Hfl. apply in_app_iff in Hfl. destruct Hfl as [Hfl | [Hfl | []]]; [apply (i_keys _ _ _ I fl Hfl) | subst fl; apply sf_keys6].
     - intros fl m Hfl. apply in_app_iff in Hfl. destruct Hfl as [Hfl | [Hfl | []]].
       + rewrite (i_tbl _ _ _ I fl m Hfl). apply filter_map_ext. intros y Hy. symmetry. apply sf_A2_old. apply (sf_old_not_f fl y Hfl Hy).
@@ -1268,17 +1315,17 @@ Section StepFlavor.
 End StepFlavor.
 
 (* ---- every admissible form preserves the invariant ----------------------------------------------------------------- *)
-Lemma step_flavor : forall st ss A f vars comps keys gets sets, InvA st ss A ->
-  form_ok (ss_decls ss) (DFlavor f vars comps keys gets sets) = true ->
-  exists A', snd (def_flavor fixed st f vars comps keys gets sets) = Ok /\
-             InvA (fst (def_flavor fixed st f vars comps keys gets sets)) (sstep ss (DFlavor f vars comps keys gets sets)) A'.
+Lemma step_flavor : forall st ss A f vars comps keys gets sets io, InvA st ss A ->
+  form_ok (ss_decls ss) (DFlavor f vars comps keys gets sets io) = true ->
+  exists A', snd (def_flavor fixed st f vars comps keys gets sets io) = Ok /\
+             InvA (fst (def_flavor fixed st f vars comps keys gets sets io)) (sstep ss (DFlavor f vars comps keys gets sets io)) A'.
 Proof.
-  intros st ss A f vars comps keys gets sets I H. simpl in H. apply andb_true_iff in H. destruct H as [H Hc].
+  intros st ss A f vars comps keys gets sets io I H. simpl in H. apply andb_true_iff in H. destruct H as [H Hc].
   apply andb_true_iff in H. destruct H as [Hf Hn]. apply negb_true_iff in Hf, Hn. apply Nat.eqb_neq in Hf.
   assert (Hcs : forall c, In c comps -> c <> vanilla /\ defined (ss_decls ss) c = true).
   { intros c Hin. rewrite forallb_forall in Hc. specialize (Hc c Hin). apply andb_true_iff in Hc. destruct Hc as [C1 C2].
     apply negb_true_iff in C1. apply Nat.eqb_neq in C1. auto. }
-  exists (A2 st ss A f vars comps keys gets sets).
-  rewrite (sf_run st ss A I f vars comps keys gets sets Hf Hn Hcs). cbn [fst snd]. split; [reflexivity |].
-  rewrite sf_sstep. apply (sf_inv st ss A I f vars comps keys gets sets Hf Hn Hcs).
+  exists (A2 st ss A f vars comps keys gets sets io).
+  rewrite (sf_run st ss A I f vars comps keys gets sets io Hf Hn Hcs). cbn [fst snd]. split; [reflexivity |].
+  rewrite sf_sstep. apply (sf_inv st ss A I f vars comps keys gets sets io Hf Hn Hcs).
 Qed.
